@@ -28,4 +28,16 @@ theorem samplers_agree (repeats : LK.Py.V) (disjoint tooMany : Bool) :
     sampleRecordsPath repeats disjoint tooMany = sampleUsersPath repeats disjoint tooMany := by
   rw [sampleRecordsPath_spec, sampleUsersPath_spec]
 
+
+/-! ### time bounds of `filter_interactions` (what `split_global_time` builds its training side with) -/
+
+/-- a time bound is applied exactly when it is given — a bound of 0 (relative offsets, the epoch) is a bound -/
+theorem time_bound_applied (k : Int) :
+    minTimeApplied (some k) = 0 ∧ maxTimeApplied (some k) = 0 ∧ minTimeApplied none = 1 ∧ maxTimeApplied none = 1 := by
+  simp [minTimeApplied, maxTimeApplied]
+
+/-- the timestamp column is required exactly when some bound is given -/
+theorem time_filter_requested_iff (a b : LK.Py.V) : timeFilterRequested a b = 0 ↔ (a.isSome ∨ b.isSome) := by
+  cases a <;> cases b <;> simp [timeFilterRequested]
+
 end LK.Gen.GuardsC05
